@@ -17,7 +17,7 @@ wt = "/tmp/seedwt-%s-%s" % (a.prop, a.name)
 out = "/verif/seeded/%s-%s" % (a.prop, a.name)
 os.makedirs(out, exist_ok=True)
 for f in ("patch.diff", "README.md", "demo_test.go"):
-    if os.path.exists(os.path.join(a.src, f)):
+    if os.path.exists(os.path.join(a.src, f)) and os.path.realpath(a.src) != os.path.realpath(out):
         shutil.copy(os.path.join(a.src, f), os.path.join(out, f))
 meta = {"property": a.prop, "name": a.name, "demo_pkg": a.pkg, "demo_run": a.run, "ran": []}
 
@@ -58,6 +58,10 @@ try:
             viol = [l for l in oc.splitlines() if l.startswith("VIOLATION") or l.startswith("  sig=")]
             summ = [l for l in oc.splitlines() if l.startswith("SUMMARY")]
             meta["checks"][c] = {"exit": rcc, "detected": rcc == 1, "violation": viol[:2], "summary": summ[-1:] }
+            for l in viol[:1]:
+                rp = l.split("replay=")[-1].strip()
+                if os.path.exists(rp):
+                    shutil.copy(rp, os.path.join(out, "detected-by-%s.replay.json" % c))
 finally:
     subprocess.run("git -C /repo worktree remove --force %s" % wt, shell=True)
     # build output of the alt repo
